@@ -105,6 +105,27 @@ func runC11(c *Ctx) {
 		for j, s := range msg.Signatures {
 			goodSigs[j] = append([]byte{}, s.Signature...)
 		}
+		if rep%8 == 3 {
+			// signer layers that were received one by one from a peer whose encoder writes the protected
+			// byte string with a wider head than needed, attached to this locally built body
+			for j, sg := range msg.Signatures {
+				b, e := sg.MarshalCBOR()
+				if e != nil {
+					continue
+				}
+				n, pe := refcbor.Parse(b)
+				if pe != nil || n.Major != refcbor.Array || len(n.Kids) != 3 {
+					continue
+				}
+				n.Kids[0].Width = mon.Pick(r, 2, 3, 5)
+				var d cose.Signature
+				if d.UnmarshalCBOR(refcbor.Encode(n)) != nil {
+					continue
+				}
+				msg.Signatures[j] = &d
+				rec.Event("signer-layer-received-separately")
+			}
+		}
 		decodedVariant := rep%2 == 1
 		keysOf := func(arr []*gen.AlgKey) ([]VKey, []cose.Verifier) {
 			vk := make([]VKey, len(arr))
